@@ -776,6 +776,31 @@ Proof.
   destruct Hc' as (_ & _ & H). rewrite Hl' in H. exact H.
 Qed.
 
+(* rotating an empty vector does nothing, whatever the amount (the loop does not run) *)
+Theorem x_rotl_empty a r : Good a -> xlen a = 0 ->
+  exists x, x_rotl a r = Ok x /\ Good x /\ kind_of x = kind_of a /\ abs x = abs a.
+Proof.
+  intros Ha H0. unfold x_rotl, v_rotl. unfold xlen in H0. rewrite H0.
+  cbn [N.to_nat rotl_loop]. change (0 <? 0) with false. cbv beta iota. cbn [bind].
+  eexists. split; [reflexivity|].
+  apply Good_with; [assumption| |left; cbn [wd]; apply lenw_zerosw|].
+  - apply canon_zeros. lia.
+  - cbn [wl wd]. rewrite raw_zerosw. rewrite (abs_Good a Ha). unfold xlen. rewrite H0. f_equal.
+    pose proof (Good_val_lt a Ha) as Hv. unfold xlen in Hv. rewrite H0 in Hv. change (2 ^ 0) with 1 in Hv. lia.
+Qed.
+
+Theorem x_rotr_empty a r : Good a -> xlen a = 0 ->
+  exists x, x_rotr a r = Ok x /\ Good x /\ kind_of x = kind_of a /\ abs x = abs a.
+Proof.
+  intros Ha H0. unfold x_rotr, v_rotr. unfold xlen in H0. rewrite H0.
+  cbn [N.to_nat rotr_loop]. change (0 <? 0) with false. cbv beta iota. cbn [bind].
+  eexists. split; [reflexivity|].
+  apply Good_with; [assumption| |left; cbn [wd]; apply lenw_zerosw|].
+  - apply canon_zeros. lia.
+  - cbn [wl wd]. rewrite raw_zerosw. rewrite (abs_Good a Ha). unfold xlen. rewrite H0. f_equal.
+    pose proof (Good_val_lt a Ha) as Hv. unfold xlen in Hv. rewrite H0 in Hv. change (2 ^ 0) with 1 in Hv. lia.
+Qed.
+
 (* ------------------------------------------------------------------ Extend / FromIterator *)
 
 Lemma fold_push_panic P bits :
